@@ -585,11 +585,11 @@ func oracle(c *vt.C, s Script, plan *topo.Plan, h *history) *vt.Finding {
 		u, v := e[0], e[1]
 		su, sv := nodeStart(u), nodeStart(v)
 		if su >= 0 && (sv < 0 || sv > su) {
-			return vt.Failf("order/start/"+kindOf(u)+"-before-"+kindOf(v), "%s sends to %s but was started first (events %d, %d)", u, v, su, sv)
+			return vt.Failf("order/start/upstream-before-downstream", "%s sends to %s but was started first (events %d, %d)", u, v, su, sv)
 		}
 		tu, tv := nodeStop(u), nodeStop(v)
 		if tu < 0 || tv < 0 || tu > tv {
-			return vt.Failf("order/shutdown/"+kindOf(v)+"-before-"+kindOf(u), "%s sends to %s but was shut down after it (events %d, %d)", u, v, tu, tv)
+			return vt.Failf("order/shutdown/downstream-before-upstream", "%s sends to %s but was shut down after it (events %d, %d)", u, v, tu, tv)
 		}
 	}
 	// the same on the instances behind cross-signal shared nodes
@@ -648,5 +648,5 @@ func TestLifecycleService(t *testing.T) {
 }
 
 func TestLifecycleCollector(t *testing.T) {
-	vt.Run(t, cCol, vt.N(1500, 60000), gen(true), run(cCol))
+	vt.Run(t, cCol, vt.N(1500, 40000), gen(true), run(cCol))
 }
